@@ -388,3 +388,65 @@ func RetSourceGuarded(w *World, id, kind, fnName string, idx int, g Gate, what s
 	}
 	return out
 }
+
+// StructFieldStores lists, over the given functions, the stores (and map updates / deletes through a field) whose
+// address chain passes through a field of one of the named struct types (short names).
+func (w *World) StructFieldStores(fns []*ssa.Function, typs map[string]bool) []ssa.Instruction {
+	var out []ssa.Instruction
+	hits := func(v ssa.Value) bool {
+		for i := 0; i < 32 && v != nil; i++ {
+			switch x := v.(type) {
+			case *ssa.FieldAddr:
+				if typs[structName(x.X.Type())] {
+					return true
+				}
+				v = x.X
+			case *ssa.IndexAddr:
+				v = x.X
+			case *ssa.UnOp:
+				if x.Op != token.MUL {
+					return false
+				}
+				v = x.X
+			case *ssa.Lookup:
+				v = x.X
+			case *ssa.Field:
+				if typs[structName(x.X.Type())] {
+					return true
+				}
+				v = x.X
+			default:
+				return false
+			}
+		}
+		return false
+	}
+	for _, fn := range fns {
+		for _, b := range fn.Blocks {
+			for _, in := range b.Instrs {
+				switch x := in.(type) {
+				case *ssa.Store:
+					if _, isAlloc := x.Addr.(*ssa.Alloc); !isAlloc && hits(x.Addr) {
+						// a store into a freshly allocated literal of the type is construction, not mutation
+						if root, _ := w.AddrRoot(x.Addr); root != nil {
+							if _, fresh := root.(*ssa.Alloc); fresh {
+								continue
+							}
+						}
+						out = append(out, in)
+					}
+				case *ssa.MapUpdate:
+					if hits(x.Map) {
+						if root, _ := w.AddrRoot(x.Map); root != nil {
+							if _, fresh := root.(*ssa.Alloc); fresh {
+								continue
+							}
+						}
+						out = append(out, in)
+					}
+				}
+			}
+		}
+	}
+	return out
+}
